@@ -282,3 +282,21 @@ def replay_enc(prop, case):
                      {'BER': defMode, 'CER': False, 'DER': True}[codec], {'BER': chunk, 'CER': 1000, 'DER': 0}[codec],
                      feats, case)
     return res
+
+
+import time as _time
+
+
+class Budget(object):
+    """Wall-clock budget for one shard: only ever *ends* a workload early (the evidence reports what was
+    actually run); never part of a verdict."""
+
+    def __init__(self, tier, quick=35.0, thorough=1500.0):
+        self.deadline = _time.time() + (quick if tier == 'quick' else thorough)
+
+    def expired(self, res=None):
+        if _time.time() > self.deadline:
+            if res is not None:
+                res.see('time-budget-stop')
+            return True
+        return False
